@@ -251,6 +251,9 @@ def _aff_task(task, out):
     dt = num.DTYPES[dtname]
     for shape in [(4,), (2, 4), (4, 4), (4, 2), (2, 2, 4), (1, 4)]:
         x = _values(shape, dt)
+        # outliers far outside the range covered by the given scale / zero-point: they must saturate, not wrap
+        x.view(-1)[0] = 100.0
+        x.view(-1)[-1] = -77.0
         numel = x.numel()
         for axis in (None, -2, -1, 0, 1, 2):
             for gs in (None, 1, 2, 3, 4, 8, 64):
